@@ -237,6 +237,65 @@ Definition SrcTie_case (c : c05session) : N :=
         "theorems": ["c08_source_is_model", "c08_source_neutral"],
         "eval": None,     # no evaluation glue: a broken tie is recorded, the hand model and the correspondence decide
     },
+    "C18": {
+        "targets": ["length/length.go:" + f for f in ("StringBytes", "StringRunes", "StringCells", "Lines",
+                                                        "LongestLineBytes", "LongestLineRunes", "LongestLineCells")],
+        "generated": "Generated/LengthSrc.v",
+        "proofs": ["Proofs/LengthSrcTie.v"],
+        "theorems": ["c18_source_is_model", "c18_source_lines_lossless", "c18_source_longest"],
+        # the translated Lines / LongestLine* on the case's string against what the real
+        # functions returned; runewidth.StringWidth = the run's oracle tables
+        "eval": """From Tab Require Import Run.Glue Run.C18Run Base.GoSem.
+From SrcTie Require Import Generated.LengthSrc.
+Definition fZ_eqb (a : fres Z) (n : nat) : bool :=
+  match a with Done (Ok z) => Z.eqb z (Z.of_nat n) | _ => false end.
+Definition SrcTie_case (c : c18_in * res c18_obs) : N :=
+  let '(i, ob) := c in
+  match ob with
+  | Ok o =>
+      let W := fun x => Z.of_nat (string_cells (seg_of (i_seg i)) (rw_of (i_rw i)) x) in
+      code ((match src_Lines (i_s i) with Done (Ok ls) => lines_eqb ls (o_lines o) | _ => false end)
+            && fZ_eqb (src_LongestLineBytes (i_s i)) (mB (o_long o))
+            && fZ_eqb (src_LongestLineRunes (i_s i)) (mR (o_long o))
+            && fZ_eqb (src_LongestLineCells W (i_s i)) (mC (o_long o))) true
+  | _ => 0%N
+  end.
+""",
+    },
+}
+SOURCE_TIES["C11"] = {
+    "targets": ["error_containers.go:" + f for f in ("NewErrorContainer", "AddError", "AddErrorList", "Errors")],
+    "generated": "Generated/ErrContSrc.v",
+    "proofs": ["Proofs/ErrContSrcTie.v"],
+    "theorems": ["c11_source_is_model", "c11_source_container", "c11_source_container_nil"],
+    # container cases: the history run on the translated functions, Errors() after every step
+    # (slices are values in the translation: the re-read after the caller overwrote its slice
+    # is predicted equal to the first read)
+    "eval": """From Tab Require Import Run.Glue Run.C11Run Base.GoSem.
+From SrcTie Require Import Generated.ErrContSrc.
+Definition f2r {A} (r : fres A) : res A := match r with Done x => x | OutOfFuel => Panic end.
+Definition src_step (c : cont) (o : cop) : res cont :=
+  match o with
+  | OpAdd e => f2r (src_AddError c e)
+  | OpAddList el => f2r (src_AddErrorList c el)
+  | OpErrors => bind (f2r (src_Errors c)) (fun _ => Ok c)
+  | OpAddSelf => bind (f2r (src_Errors c)) (fun l => f2r (src_AddErrorList c l))
+  end.
+Fixpoint src_model (c : res cont) (ops : list cop) : list cobs :=
+  match ops with
+  | [] => []
+  | o :: r =>
+      let c' := bind c (fun c => src_step c o) in
+      bind c' (fun c' => bind (f2r (src_Errors c')) (fun l => Ok (l, l))) :: src_model c' r
+  end.
+Definition src_create (m : cmode) : res cont :=
+  match m with MNil => Ok None | MZero => Ok (Some None) | MNew => f2r src_NewErrorContainer end.
+Definition SrcTie_case (c : c11_case) : N :=
+  match c with
+  | CCont m steps => code (list_eqb cobs_eqb (src_model (src_create m) (map fst steps)) (map snd steps)) true
+  | _ => 0%N
+  end.
+""",
 }
 TIE_LP = "SrcTie"    # logical path of the fresh copies
 
